@@ -1,6 +1,7 @@
 """C13 — normalised colour and intensity lie in [0,1], monotone, never NaN (DESIGN §4 C13)."""
 from mirlib import *
 import norm_rules
+import xml_rules
 
 TECHNIQUE = "abstract interpretation of Range::normalize over a float class domain (NaN / ±inf / sign / bounded) with the constructor invariant of Range established by edge dominance; clamp precondition discharge; assume-prune decision table of normalize_value; interprocedural source summaries of the four *_from_pointcloud siblings; expression trees of the data-type ranges"
 EXPLANATION = (
@@ -10,7 +11,7 @@ EXPLANATION = (
     "float classes with refinement on is_nan); that normalize_value returns 0.0 without a range, range.normalize(value) with "
     "one and the plain cast when disabled; that each of the four channels consults its own limits pair first and falls back "
     "to the data type of its own record only when the limits yield no range (helper calls are summarised with their "
-    "arguments substituted); and that the data-type ranges are the documented ones. Limit values are parsed with the type of their variant. Not decided: the exact value "
+    "arguments substituted); and that the data-type ranges are the documented ones. Limit values are parsed with the type of their variant, and the prototype's declared minimum/maximum are read from the attributes of those names (the data-type range used as fallback). Not decided: the exact value "
     "(value-min)/(max-min), monotonicity and 0/1 at the ends — numeric facts that need a relational argument.")
 
 
@@ -28,5 +29,6 @@ def run(ctx):
         norm_rules.selection_order(ctx, prog, "R2")
         norm_rules.type_ranges(ctx, prog, "R3")
         norm_rules.limit_parse_types(ctx, prog, "R3")
+        xml_rules.type_attributes(ctx, prog, "R3")
         norm_rules.normalize_value_table(ctx, prog, "R4", "R4")
     ctx.cfg = None
